@@ -31,7 +31,8 @@ def run(chk, ix, tier):
     rules_tags.check_v1_end_to_end(chk, ix)
     rules_tags.check_autodetect(chk, ix)
     rules_tags.check_autodetect_concrete(chk, ix)
+    rules_tags.check_v1_renderings(chk, ix, tier)
     rules_tags.check_tables_and_dispatch(chk, ix)
     rules_tags.check_protocol_use(chk, ix, "U5")
-    for r, n in (("U1", 900), ("U2", 85), ("U3", 2), ("U4", 7), ("U5", 2)):
+    for r, n in (("U1", 900), ("U2", 250), ("U3", 2), ("U4", 7), ("U5", 2)):
         chk.require_instances(r, n)
